@@ -10,11 +10,14 @@ Three observers of the same text:
            text was rendered from (the spec never reads the text); a text spelled with a hex escape
            that has no code point must be REPORTED, with an error naming every such escape
     MODEL  `pegmodel front`: PEG semantics (evalF) of the grammar REGENERATED from peg.peg + Lean
-           model of the builder
+           model of the builder (its case folding: unicode.ToLower/ToUpper over the REGENERATED
+           unicode.CaseRanges of the Go library, bin/gencasetable.py)
 
   well-formed texts : REAL == SPEC and REAL == MODEL
   malformed texts   : REAL never panics; REAL and MODEL agree on accept/reject, on the tree and on the
                       text of the builder's errors
+  case maps         : strings.ToLower / ToUpper of every code point: REAL (pegx -casemap) == MODEL (pegmodel casemap), and
+                      == the spec's own case forms wherever the generator may use the character case-insensitively
   probes            : grey-zone texts with the outcome the documentation suggests; disagreements are
                       FINDINGS (listed, they do not fail the run unless --fail-on-findings)
 
@@ -105,6 +108,53 @@ def run_real(pegx, reqs, jobs, timeout=60):
     return res
 
 
+def case_maps(tools):
+    """strings.ToLower / strings.ToUpper of the Go library the real front end is linked with (`pegx -casemap`) against the
+    model's (`pegmodel casemap`: the transcription of unicode.ToLower/ToUpper over the regenerated unicode.CaseRanges), on
+    EVERY code point.  Returns (number of code points whose case strings differ from themselves, list of differences)."""
+    pr = subprocess.run([tools.pegx, '-casemap'], capture_output=True, text=True, env=L.GOENV)
+    pm = subprocess.run([tools.pegmodel, 'casemap'], capture_output=True, text=True)
+    if pr.returncode != 0 or pm.returncode != 0 or not pr.stdout.strip():
+        raise RuntimeError('casemap failed: pegx rc %d %s | pegmodel rc %d %s' % (pr.returncode, pr.stderr[-300:], pm.returncode, pm.stderr[-300:]))
+
+    def table(out):
+        t = {}
+        for line in out.split('\n'):
+            f = line.split()
+            if f:
+                t[int(f[0])] = (f[1], f[2])
+        return t
+    tr, tm = table(pr.stdout), table(pm.stdout)
+    diffs = []
+    for cp in sorted(set(tr) | set(tm)):
+        if tr.get(cp) != tm.get(cp):
+            diffs.append({'cp': cp, 'real': tr.get(cp, (str(cp), str(cp))), 'model': tm.get(cp, (str(cp), str(cp)))})
+    return len(tr), diffs
+
+
+def spec_case_maps(tools):
+    """The spec's own case forms (frontgen.go_lower/go_upper, Python's Unicode database) against the real library on every
+    code point the generator may put into a case-insensitive position (frontgen.fold_ok): a difference means the spec and
+    the front end do not mean the same by "lower case" / "upper case" of that character."""
+    pr = subprocess.run([tools.pegx, '-casemap'], capture_output=True, text=True, env=L.GOENV)
+    tr = {}
+    for line in pr.stdout.split('\n'):
+        f = line.split()
+        if f:
+            tr[int(f[0])] = (f[1], f[2])
+    diffs = []
+    n = 0
+    for cp in range(0x110000):
+        if 0xd800 <= cp <= 0xdfff or not FG.fold_ok(cp):
+            continue
+        n += 1
+        want = (str(FG.go_lower(cp)), str(FG.go_upper(cp)))
+        got = tr.get(cp, (str(cp), str(cp)))
+        if want != got:
+            diffs.append({'cp': cp, 'spec': want, 'real': got})
+    return n, diffs
+
+
 def real_outcome(r):
     if r.get('crash') or r.get('timeout'):
         return ('crash', r.get('crash') or 'timeout')
@@ -188,9 +238,18 @@ def main():
             with open(out, 'w') as fh:
                 fh.write(src)
             L.log('regenerated', out)
+        import gencasetable
+        out = os.path.join(L.LEAN, 'PegVerif', 'Generated', 'CaseRanges.lean')
+        if gencasetable.write_if_changed(out, gencasetable.generate(tools)):
+            L.log('regenerated', out)
         tools.lake_build(['pegmodel'])
     t_build = time.time()
 
+    # Where the spec's oracle for "upper/lower case" (Python's Unicode database) and the Go library disagree — a different
+    # Unicode version on either side — the spec has no independent answer: the generator keeps such code points out of
+    # case-insensitive positions instead of blaming the front end (the model's maps are compared with Go's everywhere).
+    n_spec_cp, sc_diffs = spec_case_maps(tools)
+    FG.FOLD_EXCLUDE.update(d['cp'] for d in sc_diffs)
     g = FG.generate(a.seed, a.tier)
     well, mal, probes, stats = g['well'], g['malformed'], g['probes'], g['stats']
     texts = {}
@@ -211,9 +270,17 @@ def main():
 
     mismatches = []
     findings = []
+    n_cased, cm_diffs = case_maps(tools)
+    for d in cm_diffs[:20]:
+        mismatches.append({'id': 'casemap-U+%04X' % d['cp'], 'kind': 'real-vs-model',
+                           'detail': 'strings.ToLower/ToUpper of U+%04X: real %s / %s, model %s / %s' % ((d['cp'],) + tuple(d['real']) + tuple(d['model'])),
+                           'text': chr(d['cp'])})
+    t_case = time.time()
     counts = {'well': len(well), 'malformed': len(mal), 'probes': len(probes), 'real_vs_spec_ok': 0, 'real_vs_model_ok': 0,
               'model_unsupported': 0, 'spec_shape_only': 0, 'hex_without_codepoint_reported': 0,
-              'malformed_rejected': 0, 'malformed_reported_by_compile': 0, 'malformed_accepted': 0, 'panics': 0}
+              'malformed_rejected': 0, 'malformed_reported_by_compile': 0, 'malformed_accepted': 0, 'panics': 0,
+              'casemap_code_points': 0x110000 - 0x800, 'casemap_cased': 0, 'casemap_real_vs_model_diffs': 0,
+              'casemap_spec_code_points': 0, 'casemap_python_vs_go_code_points_excluded_from_generation': 0, 'ci_positions_cased_nonascii': 0, 'ci_positions_escaped_letter': 0}
     unsupported_reasons = {}
 
     def show(text_runes):
@@ -224,8 +291,8 @@ def main():
         if mo[0] == 'unsupported':
             counts['model_unsupported'] += 1
             unsupported_reasons[mo[1]] = unsupported_reasons.get(mo[1], 0) + 1
-            if mo[1] not in ('strings.ToLower on a non-ASCII rune', 'strings.ToUpper on a non-ASCII rune'):
-                mismatches.append({'id': cid, 'kind': 'model-unsupported', 'detail': mo[1], 'text': show(texts[cid])})
+            # (nothing is outside the model any more: strings.ToLower/ToUpper are modelled on every rune)
+            mismatches.append({'id': cid, 'kind': 'model-unsupported', 'detail': mo[1], 'text': show(texts[cid])})
             return
         if mo[0] != ro[0] or (mo[0] in ('tree', 'panic', 'compileError') and mo[1] != ro[1]):
             d = first_diff(ro[1], mo[1]) if mo[0] == ro[0] == 'tree' else '%s vs %s' % (short(ro, 150), short(mo, 150))
@@ -293,6 +360,11 @@ def main():
         if ok is False:
             findings.append(rec)
 
+    ci = stats.get('ci', {})
+    counts.update({'casemap_cased': n_cased, 'casemap_real_vs_model_diffs': len(cm_diffs), 'casemap_spec_code_points': n_spec_cp,
+                   'casemap_python_vs_go_code_points_excluded_from_generation': len(sc_diffs),
+                   'ci_positions_cased_nonascii': sum(v for k, v in ci.items() if k.split('-')[0] in ('cased', 'titlecase') and '-wide-' in k),
+                   'ci_positions_escaped_letter': sum(v for k, v in ci.items() if k.split('-')[0] in ('cased', 'titlecase') and k.endswith('-escaped'))})
     t_end = time.time()
     summary = {
         'tier': a.tier, 'seed': a.seed, 'repo': L.REPO, 'counts': counts,
@@ -300,9 +372,9 @@ def main():
         'model_unsupported_reasons': unsupported_reasons,
         'escape_rows': g['escape_rows'],
         'escape_kind_x_context_cells': len(stats.get('escape-context', {})),
-        'distribution': {k: dict(sorted(stats.get(k, {}).items())) for k in ('construct', 'escape', 'spelling', 'malformed')},
+        'distribution': {k: dict(sorted(stats.get(k, {}).items())) for k in ('construct', 'escape', 'spelling', 'malformed', 'ci')},
         'seconds': {'build': round(t_build - t_start, 1), 'generate': round(t_gen - t_build, 1), 'real': round(t_real - t_gen, 1),
-                    'model': round(t_model - t_real, 1), 'total': round(t_end - t_start, 1)},
+                    'model': round(t_model - t_real, 1), 'casemaps': round(t_case - t_model, 1), 'total': round(t_end - t_start, 1)},
         'model_ms_per_text': round(1000.0 * (t_model - t_real) * min(L.NCPU, len(ids)) / max(1, len(ids)), 2),
     }
     for m in mismatches[:a.max_print]:
